@@ -175,13 +175,17 @@ def _phase_like_table(report, repo, rule, fname, exec_attr, skip_attr,
       return 'sof_conf'
     if isinstance(expr, ast.Compare) and len(expr.ops) == 1:
       l, r = expr.left, expr.comparators[0]
-      if isinstance(expr.ops[0], (ast.Eq, ast.Is)) and ends_with(
-          dotted(r) or '', 'PhaseOutcome.FAIL') and isinstance(
+      if isinstance(expr.ops[0], (ast.Eq, ast.Is, ast.NotEq, ast.IsNot)) and \
+          ends_with(dotted(r) or '', 'PhaseOutcome.FAIL') and isinstance(
               l, ast.Attribute) and l.attr == 'outcome':
-        return 'last_fail'
+        return 'last_fail' if isinstance(expr.ops[0], (ast.Eq, ast.Is)) else (
+            'not', 'last_fail')
       if isinstance(l, ast.Call) and call_name(l) == 'len' and \
           isinstance(expr.ops[0], ast.Gt):
         return 'recorded'
+      if isinstance(r, ast.Call) and call_name(r) == 'len' and \
+          isinstance(expr.ops[0], ast.GtE):
+        return ('not', 'recorded')  # canonical form of len(...) <= prior
     return None
 
   classify = skip_classify(extra=extra)
@@ -220,10 +224,10 @@ def _phase_like_table(report, repo, rule, fname, exec_attr, skip_attr,
     ]
     if with_sof:
       over = []
-      for n, _ in p.steps:
+      for i_, (n, _) in enumerate(p.steps):
         if n.kind == 'stmt' and isinstance(n.ast, ast.Assign) and \
             len(n.ast.targets) == 1 and dotted(n.ast.targets[0]) == oc:
-          val = n.ast.value
+          val = cfgm.path_resolve(p, n.ast.value, before_index=i_)
           if isinstance(val, ast.Call) and last_attr(val) == \
               'PhaseExecutionOutcome' and val.args and ends_with(
                   dotted(val.args[0]) or '', 'PhaseResult.STOP'):
